@@ -110,9 +110,10 @@ Example shcounter_nonvacuous :
 Proof. vm_compute. repeat split; reflexivity. Qed.
 
 (* ================================================================== loadbalancer *)
-From PGV Require C16.LoadBalancer C16.LoadBalancerProofs.
+From PGV Require C16.LoadBalancer C16.LoadBalancerProofs C16.LoadBalancerProofs2.
 Module Lb := PGV.C16.LoadBalancer.
 Module LbP := PGV.C16.LoadBalancerProofs.
+Module LbP2 := PGV.C16.LoadBalancerProofs2.
 
 (* the spec's invariant BuffersOk, for every NUM_SERVERS, NUM_CLIENTS, BUFFER_SIZE and every interleaving *)
 Theorem loadbalancer_buffers_ok : forall NS NC B evs node,
@@ -131,6 +132,34 @@ Print Assumptions loadbalancer_assertion_free.
 Theorem loadbalancer_well_formed : forall NS NC B evs, LbP.Wf NS NC B (Lb.exec NS NC B evs).
 Proof. intros NS NC B evs. exact (LbP.wf_reachable NS NC B _ (LbP.exec_reachable NS NC B evs)). Qed.
 Print Assumptions loadbalancer_well_formed.
+
+(* every request is answered by exactly one server: (client, request number) pairs of the pages sent are pairwise
+   distinct; every entry is a real request of a real client answered by a real server; every issued request, except
+   a current one whose page has not been sent yet, has exactly one answering server *)
+Theorem loadbalancer_exactly_one_server : forall NS NC B evs,
+  let s := Lb.exec NS NC B evs in
+  NoDup (map LbP2.key (Lb.answered s)) /\
+  (forall c r j, In (c, r, j) (Lb.answered s) -> NS < c <= NS + NC /\ 1 <= j <= NS /\ r < Lb.nreq s c) /\
+  (forall c r, NS < c <= NS + NC -> r < Lb.nreq s c ->
+     (r < Lb.nreq s c - 1 \/ Lb.loc s c = Lb.InReply \/ Lb.loc s c = Lb.Idle) ->
+     exists j, In (c, r, j) (Lb.answered s) /\ forall j', In (c, r, j') (Lb.answered s) -> j' = j).
+Proof. intros NS NC B evs. exact (LbP2.exactly_one_server_lemma NS NC B _ (LbP.exec_reachable NS NC B evs)). Qed.
+Print Assumptions loadbalancer_exactly_one_server.
+
+(* a client has at most one page in its mailbox, only while it waits at clientReceive, and it waits there exactly
+   while its request or page is somewhere in the pipeline (the ghost location is not Idle) *)
+Theorem loadbalancer_one_outstanding : forall NS NC B evs c, NS < c <= NS + NC ->
+  let s := Lb.exec NS NC B evs in
+  List.length (Lb.net s c) <= 1 /\ (Lb.net s c <> [] -> Lb.cpc_ s c = Lb.CRcv) /\
+  (Lb.cpc_ s c = Lb.CRcv <-> Lb.loc s c <> Lb.Idle).
+Proof. intros NS NC B evs c Hc. exact (LbP2.one_outstanding_lemma NS NC B _ (LbP.exec_reachable NS NC B evs) c Hc). Qed.
+Print Assumptions loadbalancer_one_outstanding.
+
+(* the request of a waiting client is in exactly one place of the pipeline (the location invariant) *)
+Theorem loadbalancer_location_invariant : forall NS NC B evs,
+  LbP2.Loc NS NC (Lb.exec NS NC B evs) /\ LbP2.Hist NS NC (Lb.exec NS NC B evs).
+Proof. intros NS NC B evs. exact (LbP2.inv2_reachable NS NC B _ (LbP.exec_reachable NS NC B evs)). Qed.
+Print Assumptions loadbalancer_location_invariant.
 
 Example loadbalancer_nonvacuous :
   let s := Lb.exec 2 1 1 [3; 3; 0; 0; 0; 1; 1; 1; 3] in
